@@ -497,6 +497,24 @@ pub fn run(run: &mut Run) -> &'static str {
             })
             .map(|m| m.uci())
             .collect();
+        // the predicate itself after every reply, on the engine game with its full history: the first
+        // recurrence of these games lies 24-112 plies back, i.e. also beyond 100 plies with the clock
+        // above 100 (the fifty-move rule is no reason to stop looking: it is not automatic)
+        for m in cur.legal_moves() {
+            let child = cur.make(&m);
+            let (want, _) = expected_repetition(&child, &earlier);
+            let Some(em) = find_move(&game, &m) else { continue };
+            let mut g2 = game.clone();
+            g2.make_move(em);
+            let got = g2.is_repeated_position();
+            if want && child.halfmove > 100 {
+                st.class("repetition_more_than_100_plies_back_with_clock_above_100");
+            }
+            if got != want {
+                let sig = if got { "repetition:false_positive" } else { "repetition:missed" };
+                return Err(Fail::new(sig, format!("{} after {} plies, reply {}: engine says repeated = {got}, the history says {want} (halfmove clock {})", cur.to_fen(), ops.len(), m.uci(), child.halfmove)).explicit(ex()));
+            }
+        }
         if drawing.is_empty() {
             st.class("no_drawing_reply(control)");
             return Ok(());
